@@ -335,6 +335,56 @@ func c11ImportCache(in map[string]any) map[string]any {
 	var bad []mismatch
 	hang := false
 	var adds int64
+	if mode == "chain" {
+		// three importers, two keys: g0 compiles k (which fails), g1 compiles j, whose compilation imports k, g2 imports j and
+		// starts waiting before g1 does.  Serial behaviour: all three get k's error.  One condition variable serves all keys,
+		// so waking ONE waiter when k fails can wake the waiter on j and strand the waiter on k.
+		for r := 0; r < rounds && !hang; r++ {
+			ctx := importcache.WithNewImportCache(context.Background())
+			boom := errors.New("k does not compile")
+			kStarted, jStarted := make(chan struct{}), make(chan struct{})
+			addK := func() (rel.Expr, error) {
+				close(kStarted)
+				time.Sleep(600 * time.Millisecond)
+				return nil, boom
+			}
+			addJ := func() (rel.Expr, error) {
+				close(jStarted)
+				time.Sleep(250 * time.Millisecond) // g2 reaches the in-flight marker of j first
+				return importcache.GetOrAddFromCache(ctx, "k", func() (rel.Expr, error) { return nil, boom })
+			}
+			got := make([]string, 3)
+			if !parallel(3, budget, func(g int) {
+				var err error
+				switch g {
+				case 0:
+					_, err = importcache.GetOrAddFromCache(ctx, "k", addK)
+				case 1:
+					<-kStarted
+					_, err = importcache.GetOrAddFromCache(ctx, "j", addJ)
+				default:
+					<-jStarted
+					time.Sleep(50 * time.Millisecond)
+					_, err = importcache.GetOrAddFromCache(ctx, "j", func() (rel.Expr, error) { return nil, boom })
+				}
+				if err != nil {
+					got[g] = "err"
+				} else {
+					got[g] = "no-error"
+				}
+			}) {
+				hang = true
+				break
+			}
+			for g := 0; g < 3; g++ {
+				if got[g] != "err" && len(bad) < 5 {
+					bad = append(bad, mismatch{r, g, "GetOrAddFromCache/chain", got[g], "err"})
+				}
+			}
+		}
+		return map[string]any{"st": "ok", "serial": len(bad) == 0, "mismatches": bad, "hang": hang, "adds": int64(0),
+			"evals": 3 * rounds, "nontrivial": 3 * rounds}
+	}
 	for r := 0; r < rounds && !hang; r++ {
 		ctx := importcache.WithNewImportCache(context.Background())
 		val := rel.Expr(rel.NewNumber(float64(42 + r)))
